@@ -98,9 +98,22 @@ def gen_request_bytes(rng):
         return line + (b"\r\n" if rng.random() < 0.7 else b"") + (b"" if rng.random() < 0.8 else b"z" * 50)
     return bytes(rng.choice(b"gemini:/\r\n\x00\xffab;=") for _ in range(rng.randint(0, 40)))
 
+UP_SYNC_MSGS = ["boom", "", "x\ny", "é", "e" * 1100, "the upload handler failed before returning an awaitable", "bad\r\n20 text/gemini", "世界"]
+
+def gen_up_sync(rng):
+    """what the upload handler's CALL does: usually it returns a coroutine (None); sometimes it raises before any awaitable
+    exists, or hands back a response object instead of an awaitable"""
+    k = rng.random()
+    if k < 0.78: return None
+    if k < 0.93: return ("raise", rng.choice(UP_SYNC_MSGS))
+    return "value"
+
 def gen_cfg(rng):
-    return {"has_mw": rng.random() < 0.5, "has_upload": rng.random() < 0.6,
-            "peer_ip": rng.choice(["192.0.2.1", "::1", "10.1.2.3", None]), "fp": rng.random() < 0.3, "hres": gen_hres(rng)}
+    cfg = {"has_mw": rng.random() < 0.5, "has_upload": rng.random() < 0.6,
+           "peer_ip": rng.choice(["192.0.2.1", "::1", "10.1.2.3", None]), "fp": rng.random() < 0.3, "hres": gen_hres(rng)}
+    u = gen_up_sync(rng)
+    if u is not None and cfg["has_upload"]: cfg["up_sync"] = u
+    return cfg
 
 def task_kind(cfg, i, titan):
     """kind of the task with id i in a connection (at most: mw then handler/upload)"""
@@ -138,6 +151,10 @@ def exhaustive_small(tier):
     for has_mw, has_up in itertools.product([False, True], repeat=2):
         for hres in [("value", GOOD), ("value", (51, "text/gemini", ("t", "body"))), ("raise", "boom"), ("async",)]:
             cfgs.append({"has_mw": has_mw, "has_upload": has_up, "peer_ip": "192.0.2.1", "fp": False, "hres": hres})
+    # upload handlers whose call fails before an awaitable exists (Titan requests only; the request handler is irrelevant there)
+    for has_mw in (False, True):
+        for up_sync in (("raise", "boom"), "value"):
+            cfgs.append({"has_mw": has_mw, "has_upload": True, "peer_ip": "192.0.2.1", "fp": False, "hres": ("value", GOOD), "up_sync": up_sync})
     reqs = [b"gemini://h/\r\n", b"gemini://h/x\r\nZZ", b"foo\nbar\r\n", b"titan://h/f;size=3\r\nabc", b"titan://h/f;size=2\r\nabXY",
             b"titan://h/f;size=0\r\n"]
     outcomes_mw = [("mw", True, None), ("mw", False, "53 Access denied\r\n"), ("mw", False, None), ("raise", "x")]
@@ -146,6 +163,7 @@ def exhaustive_small(tier):
     maxcuts = 1 if tier == "quick" else 2
     for cfg in cfgs:
         for req in reqs:
+            if cfg.get("up_sync") and not req.startswith(b"titan"): continue
             segs = list(segmentations(req, maxcuts)) if len(req) > 14 else list(segmentations(req, 13 if tier != "quick" else 2))
             cap_n = 12 if tier == "quick" else 36
             segs = segs[:: max(1, len(segs) // cap_n)]
